@@ -242,6 +242,91 @@ def linear (xs : List Rat) (rows : List (List Rat)) (dim : Nat) (xnew : List Rat
     else if maxL xnew > maxL sx then .error .above
     else .ok (xnew.map (fun x => linearAt sx sy dim x))
 
+/-! ## Not-a-knot cubic spline (`interpolation.cubic` = SciPy `interp1d(kind="cubic")`, and
+`interpolation.interpolated_univariate_spline` = FITPACK's interpolating spline of degree 3) — specification
+
+Both SciPy routines return the C² piecewise cubic through the samples whose third derivative is continuous
+at the second and at the second-to-last node.  In terms of the second derivatives `m i = s''(x i)` ("moments")
+the defining equations are `NakEqs`; `pieceEval` is the cubic on one interval with given end values and end
+second derivatives.  The model solves the equations by exact Gaussian elimination and the driver reports, per
+case, that the solution it evaluates satisfies `NakEqs` (decidable). -/
+
+/-- the defining equations of the not-a-knot cubic spline through `(x i, y i)`, `i < n`, for the moments `m`:
+C¹ at every interior node, and third-derivative continuity at node `1` and node `n - 2` -/
+def NakEqs (n : Nat) (x y m : Nat → Rat) : Prop :=
+  (∀ i, i < n → 1 ≤ i → i + 1 < n →
+      (x i - x (i - 1)) * m (i - 1) + 2 * (x (i + 1) - x (i - 1)) * m i + (x (i + 1) - x i) * m (i + 1)
+        = 6 * ((y (i + 1) - y i) / (x (i + 1) - x i) - (y i - y (i - 1)) / (x i - x (i - 1)))) ∧
+  (m 1 - m 0) * (x 2 - x 1) = (m 2 - m 1) * (x 1 - x 0) ∧
+  (m (n - 2) - m (n - 3)) * (x (n - 1) - x (n - 2)) = (m (n - 1) - m (n - 2)) * (x (n - 2) - x (n - 3))
+
+instance (n : Nat) (x y m : Nat → Rat) : Decidable (NakEqs n x y m) := by
+  unfold NakEqs; infer_instance
+
+/-- the cubic on `[x0, x1]` with values `y0, y1` and second derivatives `m0, m1` at the ends -/
+def pieceEval (x0 x1 y0 y1 m0 m1 x : Rat) : Rat :=
+  let h := x1 - x0
+  m0 * (x1 - x) * (x1 - x) * (x1 - x) / (6 * h) + m1 * (x - x0) * (x - x0) * (x - x0) / (6 * h)
+    + (y0 / h - m0 * h / 6) * (x1 - x) + (y1 / h - m1 * h / 6) * (x - x0)
+
+/-- Gaussian elimination on an augmented matrix (`n` unknowns, rows `a₀ … a_{n-1} | b`), exact over `Rat`;
+`none` when the matrix is singular -/
+def gaussSolve : Nat → List (List Rat) → Option (List Rat)
+  | 0, _ => some []
+  | n + 1, rows =>
+    match rows.find? (fun r => r.headD 0 != 0) with
+    | none => none
+    | some p =>
+      let pn := p.tail.map (· / p.headD 0)
+      let rest := (rows.erase p).map (fun r => List.zipWith (fun a b => a - r.headD 0 * b) r.tail pn)
+      match gaussSolve n rest with
+      | none => none
+      | some sol => some ((pn.getLastD 0 - (List.zipWith (· * ·) pn sol).sum) :: sol)
+
+/-- the augmented matrix of `NakEqs` for sorted abscissae `xs` (length ≥ 4) and ordinates `ys` -/
+def nakSystem (xs ys : List Rat) : List (List Rat) :=
+  let n := xs.length
+  let x := fun i => xs.getD i 0
+  let y := fun i => ys.getD i 0
+  let row := fun (f : Nat → Rat) (b : Rat) => (List.range n).map f ++ [b]
+  let first := row (fun j => if j = 0 then -(x 2 - x 1) else if j = 1 then (x 2 - x 1) + (x 1 - x 0)
+      else if j = 2 then -(x 1 - x 0) else 0) 0
+  let last := row (fun j => if j = n - 3 then -(x (n - 1) - x (n - 2))
+      else if j = n - 2 then (x (n - 1) - x (n - 2)) + (x (n - 2) - x (n - 3))
+      else if j = n - 1 then -(x (n - 2) - x (n - 3)) else 0) 0
+  let mid := (List.range (n - 2)).map (fun k =>
+    let i := k + 1
+    row (fun j => if j = i - 1 then x i - x (i - 1) else if j = i then 2 * (x (i + 1) - x (i - 1))
+        else if j = i + 1 then x (i + 1) - x i else 0)
+      (6 * ((y (i + 1) - y i) / (x (i + 1) - x i) - (y i - y (i - 1)) / (x i - x (i - 1)))))
+  first :: mid ++ [last]
+
+/-- value of the spline with moments `ms` at `x` (interval chosen as SciPy's `searchsorted` does; inside the range) -/
+def nakAt (xs ys ms : List Rat) (x : Rat) : Rat :=
+  let idx := max 1 (min (searchLeft xs x) (xs.length - 1))
+  pieceEval (xs.getD (idx - 1) 0) (xs.getD idx 0) (ys.getD (idx - 1) 0) (ys.getD idx 0)
+    (ms.getD (idx - 1) 0) (ms.getD idx 0) x
+
+/-- `interpolate(x, y, x_new, kind="cubic")` / `kind="interpolated_univariate_spline"` inside the sample range:
+the result, and whether every component's moments satisfy `NakEqs` (the certificate the driver reports) -/
+def nakSpline (xs : List Rat) (rows : List (List Rat)) (dim : Nat) (xnew : List Rat) :
+    Except Err (Bool × List (List Rat)) :=
+  if rows.length != xs.length then .error .shape
+  else if xs.length < 4 then .error .short
+  else
+    let pairs := sortBy (xs.zip rows)
+    let sx := pairs.map (·.1)
+    let sy := pairs.map (·.2)
+    if !strictInc sx then .error .unsorted
+    else if minL xnew < minL sx then .error .below
+    else if maxL xnew > maxL sx then .error .above
+    else
+      let cols := (List.range dim).map (fun c => sy.map (·.getD c 0))
+      let sols := cols.map (fun col => (col, (gaussSolve sx.length (nakSystem sx col)).getD []))
+      let ok := sols.all (fun (col, ms) => ms.length == sx.length &&
+        decide (NakEqs sx.length (fun i => sx.getD i 0) (fun i => col.getD i 0) (fun i => ms.getD i 0)))
+      .ok (ok, xnew.map (fun x => sols.map (fun (col, ms) => nakAt sx col ms x)))
+
 /-! ## `midgard.math.nputil`: `norm`, `unit_vector`, `take` along the last axis -/
 
 /-- `norm(v) ** 2` for one vector (the square root itself is a parameter of `unitVector`) -/
@@ -324,6 +409,14 @@ def computeDops (sats : List Sat) : Option Dops :=
   let v := table (normal sats)
   let q := ofTable v
   if det4 q = 0 then none else some (dopsOf (inv4 q))
+
+/-- `compute_dops` with the guard as the source writes it: `lim` is the limit the source puts on the condition
+number of `HᵀH` (`Generated.C20.dopCondLimit`, read from the source: `none` = no finite limit), `cond` the value the
+code obtained for `np.linalg.cond(Q)` (a parameter) -/
+def computeDopsGuarded (lim : Option Rat) (cond : Rat) (sats : List Sat) : Option Dops :=
+  match lim with
+  | some l => if cond > l then none else computeDops sats
+  | none => computeDops sats
 
 /-! ## Plate motion (`PlateMotion.get_velocity`, system "trs") -/
 
